@@ -330,15 +330,15 @@ func kvList(m map[string]string) []KV {
 // ---- tree mode ---------------------------------------------------------------------------------------------
 
 type TreeLine struct {
-	Kind    string            `json:"kind"` // "start" | "batch"
-	K       int               `json:"K"`
-	Ops     []KV              `json:"ops"` // key bits -> tag | "" (delete)
-	Par     bool              `json:"par"`
-	Real    *JTree            `json:"real"`
-	Ref     *JTree            `json:"ref"`
-	HashOK  bool              `json:"hashOK"`
-	RootEq  bool              `json:"rootEq"`  // real root == reference root (bytes)
-	Err     string            `json:"err"`
+	Kind   string `json:"kind"` // "start" | "batch"
+	K      int    `json:"K"`
+	Ops    []KV   `json:"ops"` // key bits -> tag | "" (delete)
+	Par    bool   `json:"par"`
+	Real   *JTree `json:"real"`
+	Ref    *JTree `json:"ref"`
+	HashOK bool   `json:"hashOK"`
+	RootEq bool   `json:"rootEq"` // real root == reference root (bytes)
+	Err    string `json:"err"`
 }
 
 func treeMode(K int, seed int64, batches int, out *json.Encoder) error {
@@ -435,18 +435,18 @@ type JProofNode struct {
 }
 
 type ProofLine struct {
-	Kind     string            `json:"kind"` // "proof"
-	K        int               `json:"K"`
-	State    []KV              `json:"state"` // key bits -> tag (present keys only)
-	Key      []int             `json:"key"`   // bits of the key the statement is about
-	Val      string            `json:"val"`   // claimed value tag ("" for non-membership)
-	Member   bool              `json:"member"`
-	Honest   bool              `json:"honest"` // proof generated by the tree for exactly this statement
-	Origin   string            `json:"origin"` // how the proof was made
-	Accepted bool              `json:"accepted"`
-	Panicked bool              `json:"panicked"`
-	Err      string            `json:"err"`
-	ProofLen int               `json:"proofLen"`
+	Kind     string `json:"kind"` // "proof"
+	K        int    `json:"K"`
+	State    []KV   `json:"state"` // key bits -> tag (present keys only)
+	Key      []int  `json:"key"`   // bits of the key the statement is about
+	Val      string `json:"val"`   // claimed value tag ("" for non-membership)
+	Member   bool   `json:"member"`
+	Honest   bool   `json:"honest"` // proof generated by the tree for exactly this statement
+	Origin   string `json:"origin"` // how the proof was made
+	Accepted bool   `json:"accepted"`
+	Panicked bool   `json:"panicked"`
+	Err      string `json:"err"`
+	ProofLen int    `json:"proofLen"`
 }
 
 func verify(smt *store.SMT, k, v []byte, member bool, root []byte, proof []*lib.Node) (ok bool, panicked bool, errs string) {
@@ -626,7 +626,12 @@ func refRoot160(state map[string][]byte) []byte {
 func storeMode(seed int64, histories int, out *json.Encoder) error {
 	rng := rand.New(rand.NewSource(seed))
 	for h := 0; h < histories; h++ {
-		keys := storeKeys(rng, 24+rng.Intn(40))
+		nkeys := 24 + rng.Intn(40)
+		dense := h%8 == 3 // a tree deep enough for path nodes that end in a partial byte below the first key byte
+		if dense {
+			nkeys = 1500
+		}
+		keys := storeKeys(rng, nkeys)
 		// a target sequence of states; reached by two different batchings on two stores
 		type opT struct {
 			k, v []byte
@@ -638,6 +643,9 @@ func storeMode(seed int64, histories int, out *json.Encoder) error {
 			n := 1 + rng.Intn(len(keys))
 			if rng.Intn(2) == 0 {
 				n = 1 + rng.Intn(6)
+			}
+			if dense && b == 0 {
+				n = 2 * len(keys)
 			}
 			for i := 0; i < n; i++ {
 				k := keys[rng.Intn(len(keys))]
@@ -719,7 +727,11 @@ func storeMode(seed int64, histories int, out *json.Encoder) error {
 					roi, e := st.NewReadOnly(st.Version())
 					if e == nil {
 						ro := roi.(*store.Store)
-						for i := 0; i < 6; i++ {
+						tries := 6
+						if dense {
+							tries = 150
+						}
+						for i := 0; i < tries; i++ {
 							k := keys[rng.Intn(len(keys))]
 							v, present := state[string(k)]
 							line.ProofsTried++
